@@ -139,7 +139,8 @@ def run(chk, prog):
               "the drift offset vanishes where the axis-1 coordinate is 0, y = -min1/delta1 = zero bin of axis 1 (root %s)" % zero_d, "Drift:centre:%s" % zero_d)
     axd = {str(t) for t in off_d.free_symbols if str(t).startswith("AX")}
     chk.check(axd <= {"AX1_min", "AX1_delta", "AX0_delta"}, "R3", site_d, "the drift offset reads the axis-1 coordinate and delta0 only (%s)" % sorted(axd), "Drift:axes:%s" % sorted(axd))
-    xc = [a_ for a_ in srf.accesses if a_.kind == "store" and a_.base == "xcenter"]
+    # the local that holds the RF centre, whatever it is called: the one initialised with the zero bin of axis 0
+    xc = [a_ for a_ in srf.accesses if a_.kind == "store" and a_.idx is None and a_.value is not None and a_.value == G.AX(0, "zb") and a_.value_node is not None]
     chk.check(len(xc) == 1 and xc[0].value == G.AX(0, "zb") and "_in" in A.show(xc[0].value_node), "R3", A.loc(rf, {"line": xc[0].line if xc else rf["line"]}),
               "the RF centre is the zero bin of the input grid's axis 0", "RF:xcenter")
     # ---- R4 -------------------------------------------------------------------------------------
